@@ -29,3 +29,17 @@ Print Assumptions C01_invalid_ctx.
 Theorem C01_index_in_range : forall (l : list jv) i v, znth_opt l i = Some v -> (0 <= i < zlen l)%Z.
 Proof. exact (@znth_in_range jv). Qed.
 Print Assumptions C01_index_in_range.
+
+(* the error types of the source (gen/Tables.v, regenerated on every run) and their kinds are the model's *)
+From LD Require Import TablesProof.
+From LDGen Require Import Tables.
+From Coq Require Import String.
+Theorem C01_error_kinds_match_source :
+  error_kinds = [("badVariationError", "EvalErrorMalformedFlag"); ("emptyAttrRefError", "EvalErrorMalformedFlag");
+                 ("badAttrRefError", "EvalErrorMalformedFlag"); ("emptyRolloutError", "EvalErrorMalformedFlag");
+                 ("circularPrereqReferenceError", "EvalErrorMalformedFlag"); ("malformedSegmentError", "EvalErrorMalformedFlag")]%string
+  /\ (err_kind (EBadVariation 0) = KMalformed /\ err_kind EEmptyAttr = KMalformed /\ err_kind (EBadAttr []) = KMalformed /\
+      err_kind EEmptyRollout = KMalformed /\ err_kind (ECircPrereq []) = KMalformed /\
+      err_kind (EMalformedSeg [] EEmptyAttr) = KMalformed /\ err_kind (ECircSeg []) = KException).
+Proof. exact error_kinds_match_source. Qed.
+Print Assumptions C01_error_kinds_match_source.
